@@ -3291,6 +3291,10 @@ impl KotoVm {
                 .splice(unpack_index..unpack_index + 1, unpacked_values.drain(..));
         }
 
+        // The packed args have been consumed, and don't need to be unpacked again if the call gets
+        // forwarded (e.g. to a map's @call function).
+        info.packed_arg_count = 0;
+
         Ok(())
     }
 
